@@ -5,6 +5,18 @@
 // required metadata x enforcement maps x trust-store answers x plugin presence.
 // Oracle (implication only): success => independent signature check passes,
 // Notary payload type, target == presented artifact, required metadata signed.
+//
+// Added after the third round of seeded defects (all three were alphabet gaps, the oracle is unchanged):
+//   - shapes.go  (v)   hand-made payload BYTES with hand labels: members absent / empty / null / zero, other
+//     member order, data after or before the document, wrappers, truncation, repeated and case-variant member
+//     names; presented descriptors that lack a member themselves; blob verification also directly through the
+//     BlobVerifier with the caller's own descriptor generator;
+//   - lists.go   (vi)  two-call histories on one fresh verifier, the second call optionally handing in the very
+//     map object of the first; (vii) notation.Verify over every list of 1..3 signatures x paging of the listing;
+//   - every call now receives a private copy of the required-metadata map, the oracle keeps the pristine one
+//     (the code writing into the caller's map used to change the oracle's expectation as well);
+//   - replay.go: a replay trusts the stored envelope's own copy of a trusted root (certificates are regenerated
+//     per process, so replays of accepted cases used to fail authenticity at enforcing levels).
 package main
 
 import (
@@ -391,6 +403,7 @@ func runOCI(r *hx.Run, w *world, e *env, presentedName string, presented ocispec
 	// the code gets its own copy of the map (the caller's value); the oracle keeps the pristine one
 	outcome, verr := v.Verify(ctx, presented, e.Bytes, notation.VerifierVerifyOptions{ArtifactReference: "reg.io/r@" + presented.Digest.String(), SignatureMediaType: e.Format, UserMetadata: cloneMap(required)})
 	if verr != nil {
+		explain(verr)
 		return "rejected"
 	}
 	if why := judge(e, outcome, presented, nil, false, "", required); why != "" {
@@ -470,6 +483,7 @@ func runBlobVia(r *hx.Run, w *world, e *env, content []byte, statedMT string, re
 	r.Eval(1)
 	outcome, verr := blobCall(bv, e, content, statedMT, cloneMap(required), named, direct, shape)
 	if verr != nil {
+		explain(verr)
 		return "rejected"
 	}
 	entry := "notation.VerifyBlob"
@@ -486,8 +500,10 @@ func runBlobVia(r *hx.Run, w *world, e *env, content []byte, statedMT string, re
 
 func main() {
 	r := hx.New("C01")
-	r.Rule = "every element of the product (envelope family member x presented artifact x required metadata x enforcement map x trust-store answer x plugin manager) is verified once by the real verifier; non-trivial = distinct cases in which verification succeeded (the oracle is evaluated only there) plus distinct mutated/re-assembled envelopes that still parse"
-	r.Assumptions = []string{"RSA-PSS/ECDSA/SHA-2 are sound (forgery without the key is not attempted)", "oracle signature check is lib/refsig (standard library only)", "byte mutations cover Hamming distance 1 per byte position with values {^1,^0x80,0} and every truncation"}
+	r.Rule = "every element of the product (envelope family member x presented artifact x required metadata x enforcement map x trust-store answer x plugin manager) is verified once by the real verifier; non-trivial = distinct cases in which verification succeeded (the oracle is evaluated only there) plus distinct mutated/re-assembled envelopes that still parse; further families: hand-made payload byte shapes with hand-labelled admissible readings x presented artifacts (also lacking members) x both blob entry points; every two-call history (first call, then the judged call with a fresh or the very same required-metadata map object) on one fresh verifier; notation.Verify over every list of 1..3 signatures of a collision alphabet x paging"
+	r.Assumptions = []string{"RSA-PSS/ECDSA/SHA-2 are sound (forgery without the key is not attempted)", "oracle signature check is lib/refsig (standard library only)", "byte mutations cover Hamming distance 1 per byte position with values {^1,^0x80,0} and every truncation",
+		"hand-made payloads: content that is not exactly one JSON document holding a target descriptor is not a Notary payload; where JSON leaves the reading open (member name twice, other letter case, BOM) every reading is admissible",
+		"a caller that hands the same required-metadata map object to a second call still requires what it put into the map (the library emptying the map does not lower the requirement)"}
 	w := buildWorld()
 
 	if r.Replay != "" {
@@ -499,12 +515,18 @@ func main() {
 		b, _ := base64.StdEncoding.DecodeString(c.Envelope)
 		e := &env{Label: c.Label, Format: c.Format, Bytes: b, Family: c.Family, Blob: c.Blob, Truth: c.Truth, Sub: c.Sub}
 		var res string
+		replaying = true
+		w.adoptRoots(e)
+		if c.Prior != nil {
+			w.adoptRoots(c.Prior.Env.env(c.Family))
+		}
 		switch {
 		case c.List != nil:
 			var list []*env
 			for _, x := range c.List {
 				list = append(list, x.env(c.Family))
 			}
+			w.adoptRoots(list...)
 			res = runList(r, w, list, "replay", c.Desc, c.Required, c.Level, storeAnswer(c.Store), c.Page)
 		case c.Prior != nil:
 			content, _ := base64.StdEncoding.DecodeString(c.Content)
